@@ -128,7 +128,7 @@ def allowed(kname, text, fill, btype):
     if kname.startswith('M-trim') != (fill == 'mixops') and (kname.startswith('M-trim') or fill == 'mixops'):
         # the mixed-operand fill is used for (and only for) the M-trim kinds and the plain header kinds
         if kname.startswith('M-trim') or kname in ('icomment', 'multi', 'M', 'M-nolen', 'dot-colon', 'M-sandwich-B', 'M-sandwich-C', 'M-sandwich-W',
-                                                   '@ignoreua:i', '@bytes', 'dot-colon-blank', 'dot-colon-blank2', 'dot-revbrace', 'M-tail-C', 'M-tail-C3'):
+                                                   '@ignoreua:i', '@bytes', 'dot-colon-blank', 'dot-colon-blank2', 'dot-revbrace') or kname.startswith('M-tail'):
             return False
     if kname in PARAGRAPH_KINDS and text in ('', '.'):
         return False
@@ -140,9 +140,9 @@ def allowed(kname, text, fill, btype):
         return False
     if kname == 'M-sandwich-C' and not (fill == 'code' and btype == 'c'):
         return False
-    if kname.startswith('M-tail-C') != (fill == 'ops1') and (kname.startswith('M-tail-C') or fill == 'ops1'):
+    if kname.startswith('M-tail') != (fill == 'ops1') and (kname.startswith('M-tail') or fill == 'ops1'):
         # the 1-byte-instruction fill is used for (and only for) the M-tail kinds and the plain header kinds
-        if kname.startswith('M-tail-C') or kname in ('icomment', 'multi', 'M', 'M-nolen', 'dot-colon', 'M-sandwich-B', 'M-sandwich-C', 'M-sandwich-W', '@ignoreua:i', '@bytes', 'dot-colon-blank', 'dot-colon-blank2', 'dot-revbrace'):
+        if kname.startswith('M-tail') or kname in ('icomment', 'multi', 'M', 'M-nolen', 'dot-colon', 'M-sandwich-B', 'M-sandwich-C', 'M-sandwich-W', '@ignoreua:i', '@bytes', 'dot-colon-blank', 'dot-colon-blank2', 'dot-revbrace'):
             return False
     return True
 
@@ -281,6 +281,8 @@ def cases(tier):
         for k1, k2 in itertools.product(kinds, repeat=2):
             if k1 == k2:
                 continue
+            if k1.startswith('M-t') and k2.startswith('M-t'):
+                continue        # two mixed-type groups laid over the same bytes: contradictory directives
             for ti in pair_texts:
                 t1, t2 = TEXTS[ti], TEXTS[(ti + 3) % len(TEXTS)]
                 if not (allowed(k1, t1, fill, btype) and allowed(k2, t2, fill, btype)):
